@@ -1,0 +1,22 @@
+//go:build verif
+
+package dataflow
+
+// Machine-checked contracts (comment-only; build tag `verif`); read by /verif/govc.
+
+// C05: max-alarms = k > 0 never suppresses the first alarm and compares the alarm
+// count with k as mathematical integers (no truncation of k); k <= 0 means no limit.
+
+//@ func AnalyzerState.TestAlarmCount
+//@   property C05
+//@   requires s != nil && s.Config != nil
+//@   ensures unlimited: s.Config.MaxAlarms <= 0 ==> result
+//@   ensures limit: s.Config.MaxAlarms > 0 ==> (result <==> s.numAlarms.v < s.Config.MaxAlarms)
+//@   ensures first_not_suppressed: s.Config.MaxAlarms > 0 && s.numAlarms.v == 0 ==> result
+//@   modifies nothing
+
+//@ func AnalyzerState.IncrementAndTestAlarms
+//@   property C05
+//@   requires s != nil && s.Config != nil && 0 <= s.numAlarms.v && s.numAlarms.v < 2147483647
+//@   ensures counts: s.numAlarms.v == old(s.numAlarms.v) + 1
+//@   ensures limit: result <==> (s.Config.MaxAlarms <= 0 || old(s.numAlarms.v) + 1 < s.Config.MaxAlarms)
